@@ -32,8 +32,8 @@ LEVEL_TEXT = ("Exploration with an always-on post-condition: the monitor judges 
               "str()/strftime() format differently from OFX.")
 LEVEL_NOTE = "Trusts ref_types lexical predicates and ref_sgml; only values reachable through the public constructors are generated."
 DESIGN_REF = "DESIGN.md §3 C11"
-MIN_COUNTERS = {"quick": {"monitor_to_etree_leaves_checked": 30000, "wire_scans": 4000, "hostile_values_offered": 8000, "classes": 380},
-                "thorough": {"monitor_to_etree_leaves_checked": 500000, "wire_scans": 50000, "hostile_values_offered": 100000, "classes": 380}}
+MIN_COUNTERS = {"quick": {"monitor_to_etree_leaves_checked": 15000, "wire_scans": 4000, "hostile_values_offered": 8000, "classes": 380},
+                "thorough": {"monitor_to_etree_leaves_checked": 250000, "wire_scans": 50000, "hostile_values_offered": 100000, "classes": 380}}
 
 D = decimal.Decimal
 ENTITY = re.compile(r"&(amp|lt|gt|quot|apos|nbsp|#[0-9]+|#x[0-9A-Fa-f]+);")
